@@ -275,6 +275,8 @@ class Graph(object):
         self.steps = 0
         self.replays = 0
         self.nondet = []
+        self.truncated = None     # reason when the exploration was cut off
+        self.pending = set()      # states with untried threads (only when truncated)
 
     def add(self, key, path):
         i = self.states.get(key)
@@ -318,7 +320,7 @@ def _navigate(g, cur, todo, n):
     return None
 
 
-def explore(roles, loop, max_states=200000, deadline=None):
+def explore(roles, loop, max_states=25000, deadline=None):
     g = Graph(roles, loop)
     n = len(roles)
     run = Run(roles, loop)
@@ -329,7 +331,9 @@ def explore(roles, loop, max_states=200000, deadline=None):
     try:
         while True:
             if deadline is not None and time.time() > deadline:
-                raise HarnessError("exploration exceeded its time budget")
+                g.truncated = "time budget exhausted after %d states" % len(g.keys)
+                g.pending = set(s for s, p in todo.items() if p)
+                break
             pend = todo.get(cur)
             if not pend:
                 todo.pop(cur, None)
@@ -385,7 +389,9 @@ def explore(roles, loop, max_states=200000, deadline=None):
             if new == len(g.keys) - 1 and not any((new, t) in g.trans for t in range(n)) and new not in todo:
                 todo[new] = set(range(n))
             if len(g.keys) > max_states:
-                raise HarnessError("more than %d states" % max_states)
+                g.truncated = "more than %d states (unbounded counters?)" % max_states
+                g.pending = set(s for s, p in todo.items() if p)
+                break
             cur = new
     finally:
         run.abort()
@@ -417,7 +423,7 @@ def analyse(g):
             if e:
                 out.append(("lock-exception", s, "thread %s%d: %s" % (g.roles[t], t, e)))
         alive = [t for t in range(n) if pos[t] not in ("done", "exc")]
-        if alive and not succ[s]:
+        if alive and not succ[s] and s not in g.pending:
             out.append(("deadlock", s, "blocked=%s" % ["%s%d" % (g.roles[t], t) for t in alive]))
     # backward reachability
     pred = {s: [] for s in range(nstates)}
@@ -435,7 +441,9 @@ def analyse(g):
                     seen.add(p)
                     work.append(p)
         return seen
-    if g.loop:
+    if g.truncated:
+        pass
+    elif g.loop:
         for t in range(n):
             ok = can_reach([s for s, k in enumerate(g.keys) if k[3][t] == "cs"])
             for s in range(nstates):
@@ -449,8 +457,10 @@ def analyse(g):
                 out.append(("cannot-finish", s, "the all-finished state is no longer reachable"))
                 break
     nr = len([r for r in g.roles if r == "R"])
-    if nr >= 2 and share == 0:
+    if nr >= 2 and share == 0 and not g.truncated:
         out.append(("readers-cannot-share", 0, "no reachable state with two readers in the critical section"))
     summary = {"states": nstates, "transitions": sum(len(v) for v in succ.values()),
                "sharing_states": share, "steps": g.steps, "replays": g.replays}
+    if g.truncated:
+        summary["truncated"] = g.truncated
     return out, summary
